@@ -52,10 +52,16 @@ type Loc struct {
 type State struct {
 	heaps map[string]string
 	alloc string
+	// symbolic states (used to translate the body of an opaque spec function): every heap read returns a bound
+	// variable and is recorded
+	symbolic bool
+	reads    *[]heapRead
 }
 
+type heapRead struct{ name, sort, v string }
+
 func (s *State) clone() *State {
-	n := &State{heaps: make(map[string]string, len(s.heaps)), alloc: s.alloc}
+	n := &State{heaps: make(map[string]string, len(s.heaps)), alloc: s.alloc, symbolic: s.symbolic, reads: s.reads}
 	for k, v := range s.heaps {
 		n.heaps[k] = v
 	}
@@ -82,6 +88,7 @@ type Obl struct {
 	Secs           float64
 	Model          string
 	Cover          bool // reachability cover query: expected SAT
+	NSplit         int
 	Relaxed        string
 	RelaxedBackend string
 }
@@ -102,10 +109,12 @@ type Enc struct {
 	usesStrOp bool
 	oblNames  map[string]int
 	errs      []string
+	opaques   map[string]*opaqueInfo
+	splitVars []string // boolean constants that are branch conditions (candidates for case splits)
 }
 
 func newEnc(p *Program, fn string) *Enc {
-	return &Enc{P: p, declared: map[string]bool{}, heapSort: map[string]string{}, heapType: map[string]types.Type{}, notes: map[string]bool{}, strLits: map[string]string{}, fnName: fn, oblNames: map[string]int{}}
+	return &Enc{P: p, declared: map[string]bool{}, heapSort: map[string]string{}, heapType: map[string]types.Type{}, notes: map[string]bool{}, strLits: map[string]string{}, fnName: fn, oblNames: map[string]int{}, opaques: map[string]*opaqueInfo{}}
 }
 
 func (e *Enc) fresh(prefix, sort string) string {
@@ -167,7 +176,7 @@ func (e *Enc) oblige(kind, name string, props []string, guard, cond string, pos 
 	if k := e.oblNames[full]; k > 1 {
 		full = fmt.Sprintf("%s#%d", full, k)
 	}
-	o := &Obl{Name: full, Kind: kind, Props: props, Fn: e.fnName, Guard: guard, Cond: cond, Prefix: len(e.items), NDecl: len(e.decls), Pos: pos, Note: note}
+	o := &Obl{Name: full, Kind: kind, Props: props, Fn: e.fnName, Guard: guard, Cond: cond, Prefix: len(e.items), NDecl: len(e.decls), Pos: pos, Note: note, NSplit: len(e.splitVars)}
 	e.obls = append(e.obls, o)
 	// after checking, the condition may be assumed
 	e.assume(guard, cond)
@@ -225,6 +234,13 @@ func (e *Enc) heapWf(name, term, alloc string) {
 func (e *Enc) getHeap(st *State, name, sort string) string {
 	if t, ok := st.heaps[name]; ok {
 		return t
+	}
+	if st.symbolic {
+		v := "hv!" + name
+		st.heaps[name] = v
+		e.heapSort[name] = sort
+		*st.reads = append(*st.reads, heapRead{name, sort, v})
+		return v
 	}
 	return e.heapInit(name, sort)
 }
